@@ -25,7 +25,7 @@ func runC10(c *Ctx) {
 	p := c.P
 	f := p.Fn("(*rt/client.request).buildHTTP")
 	nrs := callsIn(f, "net/http.NewRequestWithContext")
-	c.obF("R10.1", f, "builds-request", len(nrs) == 1, "buildHTTP constructs one http.Request", fmt.Sprintf("%d", len(nrs)))
+	c.obRF("R10.1", f, "builds-request", len(nrs) == 1, "buildHTTP constructs one http.Request", fmt.Sprintf("%d", len(nrs)))
 	if len(nrs) != 1 {
 		return
 	}
@@ -119,7 +119,7 @@ func runC10(c *Ctx) {
 
 	// R10.2 query
 	sts := fieldStores(f, "net/url.URL", "RawQuery")
-	c.obF("R10.2", f, "sets-raw-query", len(sts) == 1, "the query is assigned once", fmt.Sprintf("%d stores", len(sts)))
+	c.obRF("R10.2", f, "sets-raw-query", len(sts) == 1, "the query is assigned once", fmt.Sprintf("%d stores", len(sts)))
 	for _, st := range sts {
 		ok, bad := allOrigins(st.Val, oCallWhere(-1, "(net/url.Values).Encode", func(e *ssa.Call) bool {
 			return vFieldLoad(clientReqT, "query", nil)(e.Call.Args[0])
@@ -148,8 +148,8 @@ func runC10(c *Ctx) {
 			tests = append(tests, lk)
 		}
 	}
-	c.obF("R10.2", f, "merges-static-query", len(tests) >= 1 && len(sq) == 1, "static query parameters are merged into the caller's", fmt.Sprintf("%d presence tests/%d SetQueryParam", len(tests), len(sq)))
-	if len(tests) >= 1 && len(sq) == 1 {
+	c.obRF("R10.2", f, "merges-static-query", len(sq) == 1, "static query parameters are merged into the caller's", fmt.Sprintf("%d presence tests/%d SetQueryParam", len(tests), len(sq)))
+	if len(sq) == 1 {
 		absent := factBool(func(v ssa.Value) bool {
 			ex, ok := v.(*ssa.Extract)
 			if !ok || ex.Index != 1 {
@@ -227,7 +227,31 @@ func runC10(c *Ctx) {
 		}
 		okPS = vFieldLoadO("rt/client.Runtime", "schemes")(a0[0]) && a1[0] == ssa.Value(paramOf(ps, 0))
 	}
-	c.obF("R10.3", ps, "transport-schemes-first", okPS, "pickScheme prefers the transport's own scheme list, then the operation's, then http", "")
+	recognised := len(sels) == 2
+	if len(sels) == 1 {
+		// one call in a loop over an ordered table of candidate lists: the order is the order of the table's elements
+		_, a := callArgs(sels[0].Common())
+		if ad, isLd := derefLoad(a[0]); isLd {
+			if ia, isIA := ad.(*ssa.IndexAddr); isIA {
+				if elems, isLit := sliceLitElems(ia.X); isLit && len(elems) == 2 {
+					recognised = true
+					okPS = vFieldLoadO("rt/client.Runtime", "schemes")(elems[0]) && elems[1] == ssa.Value(paramOf(ps, 0))
+					for _, l := range sliceLoops(ps, vIs(ia.X)) {
+						okPS = okPS && l.noEarlyExitExcept(func(r *ssa.Return) bool {
+							// leaving early is fine only with the scheme just selected
+							ok, _ := allOrigins(resOf(r, 0), oIsValue(sels[0].Value()))
+							return ok
+						})
+					}
+				}
+			}
+		}
+	}
+	if !recognised {
+		c.obRF("R10.3", ps, "transport-schemes-first", false, "pickScheme prefers the transport's own scheme list, then the operation's, then http", fmt.Sprintf("%d selectScheme calls", len(sels)))
+	} else {
+		c.obF("R10.3", ps, "transport-schemes-first", okPS, "pickScheme prefers the transport's own scheme list, then the operation's, then http", "")
+	}
 	for _, r := range returnsOf(ps) {
 		ok, _ := allOrigins(r.Results[0], oCall(-1, "(*rt/client.Runtime).selectScheme"), oConstString("http"))
 		c.obI("R10.3", r, "pick-result", ok, "pickScheme returns a selected scheme or http", "")
@@ -326,6 +350,12 @@ func runC10(c *Ctx) {
 				}
 				if bo, ok := v.(*ssa.BinOp); ok && bo.Op == token.ADD {
 					if k, isK := constString(bo.X); isK && k == "/" {
+						// "/" + basePath, or "/" + strings.TrimPrefix(basePath, "/") (the same text for every input)
+						if tp := asCall(bo.Y); tp != nil && calleeName(&tp.Call) == "strings.TrimPrefix" {
+							if pre, isP := constString(tp.Call.Args[1]); isP && pre == "/" {
+								return okV(tp.Call.Args[0], d-1)
+							}
+						}
 						return okV(bo.Y, d-1)
 					}
 				}
@@ -342,5 +372,5 @@ func runC10(c *Ctx) {
 			c.obI("R10.3", st, "base-path-verbatim", okV(st.Val, 4), "the base path given to client.New is stored as given, at most prefixed with a missing '/': its static query values reach buildHTTP unchanged", "value "+describe(st.Val))
 		}
 	}
-	c.obF("R10.3", nw, "stores-base-path", nBP >= 1, "client.New records the base path", "")
+	c.obRF("R10.3", nw, "stores-base-path", nBP >= 1, "client.New records the base path", "")
 }
